@@ -14,7 +14,7 @@ import (
 // Engine "ordinals": the client helpers that answer questions about the desired ordinal set.
 //
 //	case: r|kind|hex(raw)      kind = nil (annotation map nil) | absent (map without the key) | raw (value = raw)
-//	obs : slots=<sorted> bound=<n> eff=<sorted> ords=<sorted> ords2=<sorted> max=<n> min=<n>
+//	obs : slots=<sorted> bound=<n> eff=<sorted> ords=<sorted> ords2=<sorted> max=<n> min=<n> next=<ordinals for r+3, same set object> mut=<slot set modified by the helpers?>
 func init() {
 	engines["ordinals"] = &Engine{Gen: genOrdinals, Enum: enumOrdinals, Run: runOrdinals}
 }
@@ -36,13 +36,17 @@ func runOrdinals(line string) string {
 		return "bad-case"
 	}
 	slots := helper.GetDeleteSlots(obj)
+	parsed := slots.List()
 	bound, eff := helper.GetMaxReplicaCountAndDeleteSlots(r, slots)
 	ords := helper.GetPodOrdinals(r, obj)
 	ords2 := helper.GetPodOrdinalsFromReplicasAndDeleteSlots(r, slots)
 	mx := helper.GetMaxPodOrdinal(r, obj)
 	mn := helper.GetMinPodOrdinal(r, obj)
-	return fmt.Sprintf("slots=%s bound=%d eff=%s ords=%s ords2=%s max=%d min=%d",
-		joinInt32s(slots.List()), bound, joinInt32s(eff.List()), joinInt32s(ords.List()), joinInt32s(ords2.List()), mx, mn)
+	// the helpers must not modify the set they are given: ask again, with the same set object, for a larger replica count
+	next := helper.GetPodOrdinalsFromReplicasAndDeleteSlots(r+3, slots)
+	mut := joinInt32s(slots.List()) != joinInt32s(parsed)
+	return fmt.Sprintf("slots=%s bound=%d eff=%s ords=%s ords2=%s max=%d min=%d next=%s mut=%s",
+		joinInt32s(parsed), bound, joinInt32s(eff.List()), joinInt32s(ords.List()), joinInt32s(ords2.List()), mx, mn, joinInt32s(next.List()), b2s(mut))
 }
 
 func ordCase(r int, kind, raw string) string {
